@@ -12,8 +12,8 @@ ID = "C19"
 ISOLATE = True  # end-to-end solver calls: run every case in a killable child
 RULE = ("case = generated database x hole mode (1 reads only in the neutral region, 2 reads everywhere but gene+pseudogene, "
         "3 covered locus but average depth below a raised min_avg_coverage, 4 reads over the pseudogene only, 5 empty neutral region, "
-        "6 control, 7 reads that end exactly at / start right after the locus, 8 reads only between gene and pseudogene) x route (profile BAM, profile file, user-supplied structure with/without a profile) x output format "
-        "(none, .aldy, .vcf, .simple, is_simple) x single/multi-gene call; non-trivial = modes 1-5; distinct = case JSON")
+        "6 control, 9 covered locus with min_avg_coverage a fraction of a read above the measured depth, 7 reads that end exactly at / start right after the locus, 8 reads only between gene and pseudogene) x route (profile BAM, profile file, user-supplied structure with/without a profile) x output format "
+        "(none, .aldy, .vcf, .simple, is_simple) x single/multi-gene call x optionally a healthy sample of the same file name genotyped first; non-trivial = modes 1-5; distinct = case JSON")
 ASSUMPTIONS = [
     "mode 4 is judged only for databases with a pseudogene and a whole-gene deletion allele and an estimated structure (the statement's wording)",
     "mode 5 (empty neutral region) is judged only on routes that use a neutral region (not the user-supplied structure)",
@@ -74,12 +74,29 @@ def run_case(case):
                 reads += sim.tile("gap", lo_, hi_, {}, rl, step)
     elif mode == 5:
         reads = sim.sample_reads(two, rl, step, skip=("neutral",))
+    elif mode == 9:
+        reads = sim.sample_reads(two, rl, step)  # threshold set below, once the sample's depth is known
     else:
         reads = sim.sample_reads(two, rl, step)
     if not reads:
         reads = sim.tile("far", sim.L - 600, sim.L - 100, {}, rl, step)
     sim.write(bam, reads)
     sim.sample(pbam, two, rl, step)
+    if mode == 9:
+        # configured minimum a fraction of a read above the locus depth as aldy measures it (judged: the comparison with the
+        # configured, non-integer value)
+        from aldy.sam import Sample
+
+        avg = Sample(gene, Profile("x", cn_solution=["1", "1"]), bam).coverage.average_coverage()
+        frac = avg - int(avg)
+        params["min_avg_coverage"] = avg + min(0.3, (1 - frac) / 2)
+        labels.append("threshold-between-floor-and-depth" if int(params["min_avg_coverage"]) <= avg else "threshold-floor-above-depth")
+    if case.get("prior"):
+        # history: a healthy sample with the same file name (another directory) is genotyped first in this process, same route
+        os.makedirs(os.path.join(d, "prior"), exist_ok=True)
+        pb = os.path.join(d, "prior", "s.bam")
+        sim.sample(pb, two, rl, step)
+        labels.append("after-healthy-sample-of-same-name")
 
     kw = dict(genome=build, solver="cbc")
     if route == "bam":
@@ -108,6 +125,11 @@ def run_case(case):
     gene_arg = f"{db},{db}" if case["multi"] else db
     exc = None
     res = None
+    if case.get("prior"):
+        try:
+            genotype(db, os.path.join(d, "prior", "s.bam"), prof, output_file=None, **{k: v for k, v in kw.items() if k != "is_simple"})
+        except AldyException:
+            labels.append("prior-run-rejected")
     try:
         res = genotype(gene_arg, bam, prof, output_file=fh, **kw, **params)
     except AldyException as e:
@@ -118,7 +140,7 @@ def run_case(case):
     text = open(outpath).read() if outpath else ""
     sols = [s for v in (res or {}).values() for s in v]
     viol = []
-    must_fail = mode in (1, 2, 3, 7, 8) or (mode == 5 and not user_cn) or (mode == 4 and not has_p)
+    must_fail = mode in (1, 2, 3, 7, 8, 9) or (mode == 5 and not user_cn) or (mode == 4 and not has_p)
     ngenes = 2 if case["multi"] else 1
     if must_fail:
         if sols:
@@ -163,7 +185,8 @@ def strategy(tier):
     return st.fixed_dictionaries({
         "db": dbs,
         "build": st.sampled_from(["hg19", "hg38"]),
-        "mode": st.sampled_from([1, 7, 2, 3, 8, 4, 4, 5, 6, 3, 7]),
+        "mode": st.sampled_from([1, 7, 2, 3, 8, 4, 4, 5, 6, 3, 7, 9, 9, 5]),
+        "prior": st.sampled_from([False, False, True]),
         "route": st.sampled_from(ROUTES),
         "out": st.sampled_from(OUTS),
         "multi": st.sampled_from([False, False, True]),
